@@ -543,7 +543,7 @@ def atomic_publication(ctx):
         raise AnalysisError("C12.R1", "no publication construct found (swap does not replace the primary file?)")
 
 
-@rule("C12.R2", ["C12", "C15"], min_instances=1, design="3.12")
+@rule("C12.R2", ["C12", "C15", "C13", "C04"], min_instances=1, design="3.12")
 def truncate_then_write_only_for_reset(ctx):
     """The truncate-and-write primitive is called only by reset, with an empty literal."""
     n = 0
@@ -568,7 +568,7 @@ def truncate_then_write_only_for_reset(ctx):
             if isinstance(c, ast.Call) and isinstance(c.func, ast.Attribute) and c.func.attr == "truncate" \
                     and "PRIMARY" in ctx.eff.expr_roles(c.func.value, ctx.eff.roles[cls], env):
                 ok = f.name == "append" and not c.args
-                yield Ob("C12.R2", ["C12", "C13"], f"{f.qual} | truncate of the primary handle | {norm(c)}", ok,
+                yield Ob("C12.R2", ["C12", "C13", "C04"], f"{f.qual} | truncate of the primary handle | {norm(c)}", ok,
                          "truncate at the end-of-file cursor after an append (cuts nothing)" if ok else
                          "truncates the primary file outside reset/append", ctx.prog.loc(c))
 
@@ -613,7 +613,7 @@ def durable_append_order(ctx):
 
 
 # -------------------------------------------------------------------- C15.R3
-@rule("C15.R3", ["C15", "C11", "C13", "C12", "C02", "C03"], min_instances=3, design="3.15")
+@rule("C15.R3", ["C15", "C11", "C13", "C12", "C02", "C03", "C06"], min_instances=3, design="3.15")
 def temp_store_pairing(ctx):
     """The temporary store is released (closed and unlinked) on every exit, normal or exceptional, of a temp_storage_op."""
     cls = csv_cls(ctx)
@@ -698,7 +698,7 @@ def temp_store_pairing(ctx):
         by_release = resets(ctx.prog.classes[mc].methods.get("_cleanup_temp_storage")) \
             and resets(ctx.prog.classes[mc].methods.get("__init__")) and released_always
         ok_m = by_init or by_release
-        yield Ob("C15.R3", ["C15", "C11", "C13", "C02", "C03"], f"{mi.qual} | acquisition starts from an empty temporary list", ok_m,
+        yield Ob("C15.R3", ["C15", "C11", "C13", "C02", "C03", "C06"], f"{mi.qual} | acquisition starts from an empty temporary list", ok_m,
                  ("temporary list rebound to []" if by_init else
                   "every release rebinds the temporary list to [] and release is guaranteed on every exit") if ok_m else
                  "temporary memory is not reset at acquisition, and release (which would reset it) is not guaranteed on "
